@@ -25,6 +25,12 @@ type Mutant struct {
 	File2    string `json:"file2,omitempty"`
 	Find2    string `json:"find2,omitempty"`
 	Replace2 string `json:"replace2,omitempty"`
+	// further edits (a seeded change kept whole)
+	More []struct {
+		File    string `json:"file"`
+		Find    string `json:"find"`
+		Replace string `json:"replace"`
+	} `json:"more,omitempty"`
 }
 
 type mutantResult struct {
@@ -109,6 +115,17 @@ func runMutants(p *Property, tags string, controlsOnly bool) []mutantResult {
 				out = append(out, mutantResult{ID: m.ID, Verdict: "SKIPPED", Detail: why})
 				continue
 			}
+		}
+		skipped := false
+		for _, e := range m.More {
+			if why, ok := applyEdit(overlay, e.File, e.Find, e.Replace); !ok {
+				out = append(out, mutantResult{ID: m.ID, Verdict: "SKIPPED", Detail: why})
+				skipped = true
+				break
+			}
+		}
+		if skipped {
+			continue
 		}
 		c := runRules(p, "quick", tags, overlay)
 		res := mutantResult{ID: m.ID, Verdict: "MISSED", Detail: "no new violation of rule " + m.Rule + " matching " + m.Obl}
